@@ -15,6 +15,7 @@ RULE = ("(a) EXHAUSTIVE: every calendar day 1900-01-01..2100-12-31 (73414 days) 
         "reference, `-x axis -agg count -type csv` must equal reference counts. signature = (axis, #slices, boundary "
         "classes hit); non-trivial = >= 2 slices and >= 1 time within a day of a bucket boundary.")
 EXHAUSTIVE = "date conversions for every day 1900-2100"
+RULE += " " + 'Whole times / lead times / locations whose values are exactly 0; shards rotate the process time zone.'
 ASSUMPTIONS = ["initialisation times are whole seconds; UTC calendar; Monday-based weeks",
                "dayofyear numbering: either leap-year calendar (verif) or true ordinal is accepted, consistently"]
 REQUIRED_COUNTERS = ["days_converted", "bucket_checks", "partition_checks", "label_checks", "csv_rows", "weighted_mean_checks"]
